@@ -1251,8 +1251,22 @@ def r5b_statement_kind(R) -> None:
     fail_edge = 'T' if neg else 'F'
     tg = [b for (b, lab) in t.succ if lab == fail_edge]
 
+    # the list of problem statements, by role: a local list that is appended to here and tested before a ParserError is raised
+    problem_lists = {'problem_statements'}
+    try:
+        _pf = Fn(R, f'{P}.parse_model')
+        for r_ in _pf.raises('ParserError'):
+            for (a_, tr_, _tn) in _pf.guard_atoms(r_.id):
+                for x_ in ast.walk(a_):
+                    if isinstance(x_, ast.Name) and x_.id in _pf.lf.locals and any(
+                            isinstance(c_, ast.Call) and isinstance(c_.func, ast.Attribute) and c_.func.attr == 'append' and isinstance(c_.func.value, ast.Name) and c_.func.value.id == x_.id
+                            for c_ in ast.walk(_pf.fi.node)):
+                        problem_lists.add(x_.id)
+    except Exception:
+        pass
+
     def records(first_ast) -> bool:
-        return first_ast is not None and (('problem_statements.append' in text(first_ast)) or isinstance(first_ast, ast.Raise))
+        return first_ast is not None and (any(f'{pl_}.append' in text(first_ast) for pl_ in problem_lists) or isinstance(first_ast, ast.Raise))
 
     ok = False
     for b in tg:
